@@ -179,6 +179,41 @@ def shrink(chk, case, key, rounds=14):
     return dict(case, targets=cur, tags=case.get("tags", []) + ["shrunk"]), out
 
 
+def judge_call(c, o):
+    """(key, sentence) or None for one call of a history, by the independent oracle."""
+    if c["mode"] == "compress":
+        return verdict(c, o) if c.get("valid", True) else None
+    if c["mode"] == "tree" and c["level"] == 0 and o[0] == "ok":
+        targets = {}
+        for x, y, p in c["adds"]:
+            targets.setdefault((x, y), set()).add(p)
+        w = oracle_compress(targets, ["ok", None, sorted(tuple(q) for q in o[2])])
+        return ("tree-" + w[0], w[1]) if w else None
+    return None
+
+
+def shrink_history(chk, hist, idx, key):
+    """The failing call with as few of the earlier calls as still make it fail (same kind of failure)."""
+    calls = [clean(c) for c in hist["calls"][:idx + 1]]
+    best = None
+    cands = [[calls[-1]]] + [[c, calls[-1]] for c in calls[:-1]] + [calls[:i] + calls[i + 1:] for i in range(len(calls) - 1)]
+    cands = [c for c in cands if len(c) < len(calls)]
+    try:
+        res = chk.impl("impl_c12.py", [dict(mode="history", calls=c) for c in cands], timeout=600) if cands else []
+    except Exception:
+        res = []
+    for c, o in zip(cands, res):
+        if o[0] == "ok":
+            w = judge_call(c[-1], o[1][-1])
+            if w and w[0] == key and (best is None or len(c) < len(best[0])):
+                best = (c, o[1][-1], w)
+    if best is None:
+        o = chk.impl("impl_c12.py", [dict(mode="history", calls=calls)], timeout=600)[0]
+        w = judge_call(calls[-1], o[1][-1]) if o[0] == "ok" else None
+        return dict(mode="history", calls=calls), (o[1][-1] if o[0] == "ok" else o), w or (key, "(not reproduced when replayed alone)")
+    return dict(mode="history", calls=best[0]), best[1], best[2]
+
+
 # ------------------------------------------------------------------ generator
 def block(bx, by, side):
     return [(x, y) for x in range(bx, bx + side) for y in range(by, by + side)]
@@ -296,6 +331,111 @@ def gen_case(rng, idx, tier):
                 tags.append("empty-core-set")
     return dict(mode="compress", targets=targets, container=container, tags=sorted(set(tags)), order=order,
                 valid=True)
+
+
+def gen_blocks_late(rng, small=False):
+    """Two or more blocks (4x4 / 16x16, aligned) each completely requested for ONE core, inserted block after
+    block, followed by late insertions into them (further cores on the LAST chip of a block, which the loops of
+    compress_flood_fill_regions meet after the block has become full) and next to them.  The insertion order
+    is the point of the case: container is a list and the chips keep the order chosen here."""
+    nblocks = rng.choice([2, 2, 3])
+    sides = [rng.choice([4, 16]) if not small else rng.choice([4, 4, 16]) for _ in range(nblocks)]
+    if not any(sd == 16 for sd in sides) and rng.random() < 0.7:
+        sides[rng.randrange(nblocks)] = 16
+    same_core = rng.random() < 0.6
+    p0 = rng.randrange(17)
+    used, targets, tags = set(), [], ["blocks+late"]
+    neighbours = rng.random() < 0.6            # blocks next to each other (same parent) or anywhere
+    ax, ay = rng.randrange(0, 256, 64), rng.randrange(0, 256, 64)
+    late = []
+    for sd in sides:
+        for _ in range(20):
+            if neighbours:
+                bx, by = ax + rng.randrange(0, 64, sd), ay + rng.randrange(0, 64, sd)
+            else:
+                bx, by = rng.randrange(0, 256, sd), rng.randrange(0, 256, sd)
+            chips = block(bx, by, sd)
+            if not used & set(chips):
+                break
+        else:
+            continue
+        used |= set(chips)
+        p = p0 if same_core else rng.randrange(17)
+        how = rng.choice(["sorted", "sorted", "shuffled", "reversed"])
+        if how == "shuffled":
+            rng.shuffle(chips)
+        elif how == "reversed":
+            chips.reverse()
+        for c in chips[:-1]:
+            targets.append([c[0], c[1], [p]])
+        extra = []
+        r = rng.random()
+        if r < 0.6:
+            extra = [rng.choice([q for q in range(18) if q > p] or [p])]        # a higher-numbered core
+        elif r < 0.8:
+            extra = rng.sample(range(18), 2)
+        last = chips[-1]
+        targets.append([last[0], last[1], [p] + [q for q in extra if q != p] + ([p] if rng.random() < 0.2 else [])])
+        if rng.random() < 0.5:                  # a chip next to the block, later
+            late.append([bx + sd if bx + sd < 256 else bx - 1, by + rng.randrange(sd), [rng.choice([p, rng.randrange(18)])]])
+        tags.append("single-core-full%d" % sd)
+    seen = {(t[0], t[1]) for t in targets}
+    for l in late:
+        if (l[0], l[1]) not in seen:
+            seen.add((l[0], l[1]))
+            targets.append(l)
+    return dict(mode="compress", targets=targets, container="list", tags=sorted(set(tags)), order="chosen", valid=True)
+
+
+def gen_tree_blocks_late(rng):
+    """RegionCoreTree(level=0) used directly: single-core full blocks, then late add_core calls anywhere inside
+    them (same or other cores), next to them, and duplicates."""
+    adds, blocks = [], []
+    for _ in range(rng.choice([2, 2, 3])):
+        sd = rng.choice([4, 16, 16])
+        bx, by = rng.randrange(0, 128, sd), rng.randrange(0, 128, sd)
+        p = rng.randrange(18)
+        chips = block(bx, by, sd)
+        if rng.random() < 0.5:
+            rng.shuffle(chips)
+        adds += [[x, y, p] for x, y in chips]
+        blocks.append((bx, by, sd, p))
+    for _ in range(rng.randint(1, 5)):
+        bx, by, sd, p = rng.choice(blocks)
+        where = rng.choice(["inside", "inside", "next"])
+        x, y = (bx + rng.randrange(sd), by + rng.randrange(sd)) if where == "inside" else (min(255, bx + sd), by + rng.randrange(sd))
+        adds.append([x, y, rng.choice([p, rng.randrange(18)])])
+    return dict(mode="tree", level=0, adds=adds, tags=["blocks+late"])
+
+
+def gen_history(rng):
+    """2-4 calls (compress_flood_fill_regions / RegionCoreTree uses) made one after the other in ONE interpreter.
+    Each call is judged on its own and must equal the same call made in a fresh interpreter (= the stateless model)."""
+    calls = []
+    for _ in range(rng.randint(2, 4)):
+        r = rng.random()
+        if r < 0.45:
+            c = gen_blocks_late(rng, small=rng.random() < 0.5)
+        elif r < 0.6:
+            c = gen_tree_blocks_late(rng)
+        elif r < 0.7:
+            c = gen_tree_case(rng)
+        else:
+            t, tags = {}, []
+            for _ in range(rng.choice([1, 1, 2])):
+                tags += gen_shape(rng, t, rng.choice(["sparse", "full4", "full4", "full16", "neighbours", "straddle4"]), heavy=False)
+            chips = sorted(t)
+            if rng.random() < 0.5:
+                rng.shuffle(chips)
+            c = dict(mode="compress", targets=[[x, y, sorted(t[(x, y)])] for x, y in chips],
+                     container=rng.choice(["set", "list"]), tags=sorted(set(tags)), order="sorted", valid=True)
+        calls.append(c)
+    return dict(mode="history", calls=calls)
+
+
+def clean(c):
+    """A case as written to replays / samples: without the harness's private back references."""
+    return {k: v for k, v in c.items() if not k.startswith("_")}
 
 
 def gen_malformed(rng):
@@ -467,7 +607,11 @@ def run(chk, args):
             if i % 16 == 15:
                 cases.append(gen_malformed(rng))
             elif i % 8 == 3:
-                cases.append(gen_tree_case(rng))
+                cases.append(gen_tree_case(rng) if i % 16 == 3 else gen_tree_blocks_late(rng))
+            elif i % 10 == 1:
+                cases.append(gen_history(rng))
+            elif i % 10 == 6:
+                cases.append(gen_blocks_late(rng))
             else:
                 cases.append(gen_case(rng, i, chk.tier))
         # a whole machine for one core, and the whole machine but one chip for another
@@ -503,13 +647,31 @@ def run(chk, args):
         k = sizes.index(min(sizes))
         where.append((k, len(chunks[k])))
         chunks[k].append(c)
-        sizes[k] += 50 + sum(len(t[2]) for t in c.get("targets", [])) + len(c.get("adds", [])) + len(c.get("chips", [])) // 4
+        sizes[k] += 50 + sum(sum(len(t[2]) for t in cc.get("targets", [])) + len(cc.get("adds", []))
+                             for cc in [c] + c.get("calls", [])) + len(c.get("chips", [])) // 4
     t1 = time.time()
     res = chk.impl_parallel("impl_c12.py", chunks, timeout=2400)
     timing["implementation"] = round(time.time() - t1, 1)
     outs = [res[k][j] for k, j in where]
     chip_outs = outs[len(cases):]
     outs = outs[:len(cases)]
+    # a history is judged call by call: every call on its own by the oracle, and against the stateless model
+    fc, fo = [], []
+    for c, o in zip(cases, outs):
+        if c["mode"] != "history":
+            fc.append(c)
+            fo.append(o)
+            continue
+        chk.count("histories (2-4 calls in one interpreter)")
+        if o[0] != "ok":
+            if o[0] == "hang":
+                chk.fail_input("history:hang", "a history of calls did not finish within the time limit", dict(case=c))
+            continue
+        for i, (cc, oo) in enumerate(zip(c["calls"], o[1])):
+            fc.append(dict(cc, _h=(c, i)))
+            fo.append(oo)
+            chk.count("history calls")
+    cases, outs = fc, fo
 
     # ---------------- oracle on every implementation output
     t2 = time.time()
@@ -541,11 +703,38 @@ def run(chk, args):
         else:
             chk.count("tree-level:%d" % c["level"])
             chk.count("outcome:" + o[0])
-            chk.note_case(c, nontrivial=(o[0] == "ok" and len(o[2]) >= 2))
+            for tg in c.get("tags", []):
+                chk.count("tree-shape:" + tg)
+            chk.note_case(clean(c), nontrivial=(o[0] == "ok" and len(o[2]) >= 2))
+            if c["level"] == 0 and o[0] == "ok" and all(0 <= x < 256 and 0 <= y < 256 and 0 <= p < 18 for x, y, p in c["adds"]):
+                # a level-0 tree is what compress_flood_fill_regions builds; its sorted traversal is that
+                # function's return value for this insertion sequence
+                targets = {}
+                for x, y, p in c["adds"]:
+                    targets.setdefault((x, y), set()).add(p)
+                why = oracle_compress(targets, ["ok", None, sorted(o[2])])
+                if why and nfail < 20:
+                    nfail += 1
+                    failing.append((c, o, ("tree-" + why[0], why[1]), len(c["adds"])))
     # report the failing inputs, the first of each kind shrunk to a small target set
     shrunk_keys = set()
     for c, o, why, ncores in sorted(failing, key=lambda f: f[3]):
         rep_case, rep_out, rep_why = c, o, why
+        if "_h" in c:
+            hist, idx = c["_h"]
+            hcase, hout, hwhy = shrink_history(chk, hist, idx, why[0])
+            if len(hcase["calls"]) == 1:        # the call fails on its own: an ordinary failing input
+                c = rep_case = clean(c)
+        if "_h" in c:
+            chk.fail_input("history-" + hwhy[0], "call #%d of %d calls made in one interpreter: %s"
+                           % (len(hcase["calls"]), len(hcase["calls"]), hwhy[1]),
+                           dict(case=hcase, observed_last_call=hout if len(json.dumps(hout)) < 60000 else hout[0],
+                                note="every call starts from a freshly imported rig in the replay driver; the last "
+                                     "call is the one judged"))
+            continue
+        if c["mode"] == "tree":
+            chk.fail_input(why[0], "RegionCoreTree(level=0), sorted traversal: " + why[1], dict(case=clean(c), observed=o))
+            continue
         if why[0] not in shrunk_keys and len(shrunk_keys) < 4 and o[0] != "hang":
             shrunk_keys.add(why[0])
             try:
@@ -577,10 +766,10 @@ def run(chk, args):
     chk.count("get_region_for_chip calls", nchips)
     mid = next((i for i in range(len(cases) // 2, len(cases)) if cases[i]["mode"] == "compress"
                 and len(cases[i]["targets"]) <= 12), 0)
-    chk.sample(dict(case=cases[mid], implementation=outs[mid]))
+    chk.sample(dict(case=clean(cases[mid]), implementation=outs[mid]))
     trees = [i for i, c in enumerate(cases) if c["mode"] == "tree" and len(c["adds"]) <= 20]
     if trees:
-        chk.sample(dict(case=cases[trees[0]], implementation=outs[trees[0]]))
+        chk.sample(dict(case=clean(cases[trees[0]]), implementation=outs[trees[0]]))
 
     timing["oracle"] = round(time.time() - t2, 1)
     t3 = time.time()
@@ -615,8 +804,16 @@ def run(chk, args):
                     same = (m[0] == o[0] and (m[0] != "ok" or (list(m[1][0]) == o[1] and pairs(m[1][1]) == pairs(o[2])))
                             and (m[0] != "fail" or m[1] == o[1]))
                     shown = (m, o)
+                if not same and bad < 3 and "_h" in c:
+                    bad += 1
+                    hist, hi = c["_h"]
+                    chk.disagree("call #%d of a history made in one interpreter differs from the same call in a fresh "
+                                 "interpreter (the stateless model): model %r, implementation %r" % (hi + 1, shown[0], shown[1]),
+                                 dict(case=dict(mode="history", calls=[clean(q) for q in hist["calls"][:hi + 1]])))
+                    continue
                 if not same and bad < 3:
                     bad += 1
+                    c = clean(c)
                     small = (c if len(json.dumps(c)) < 60000 else {k: v for k, v in c.items() if k != "targets"} if "rects" in c
                              else dict(c, targets="(large; same seed regenerates it)"))
                     chk.disagree("%s: model %r, implementation %r" % (c["mode"], shown[0], shown[1]),
